@@ -27,6 +27,9 @@
      ElementWithCondClass(cond,k,l) <div if cond { class={ k } } else { class={ l } }>: the css items of both arms are hoisted
                                     (writeAttributesCSS: Then, then Else), the class attribute of the taken arm is written
      OnceWithBlock(h) / OnceWithComponent(g)     once.go
+     OnceNested(h,t)                @h.Once() { content of h, then (at any depth) @t.Once() { content of t } }: a once use
+                                    whose guarded content uses the same (t = h) or another handle.  once.go marks the
+                                    handle as rendered BEFORE it renders the content, so the use inside is not a first use
      StylesheetRequest              CSSHandler.ServeHTTP
      SetNonce(c)                    ctx = templ.WithNonce(ctx, nonce) at this point of the history (a nonce middleware
                                     inside NewCSSMiddleware when it comes first in an mw context, a layout that sets
@@ -57,6 +60,7 @@ CONSTANTS Ctxs,          \* context names (a sequence, e.g. <<"c1","c2">>)
           Repaired,      \* subset of {"KvCompName", "SliceKVRules"}
           Variant,       \* "asCoded" | "sharedKeys" | "noRecord" | "packageState" | "mwInlines" | "nonceForgets"
                          \* | "elseNotHoisted" (the else-arm of a conditional attribute is not collected for hoisting)
+                         \* | "markAfterRender" (once.go records the handle only after its content has rendered)
                          \* | "onceKeyedById" (rendered handles remembered by OnceHandle.id instead of by address)
           MaxNonces,     \* how often WithNonce may be applied to one context
           NonceCtxs,     \* the contexts WithNonce may be applied to (emission B: one of the two, all mode pairs are explored)
@@ -150,7 +154,9 @@ Init == /\ mode \in [CtxSet -> Modes]
 \* one use in context c: tokens toks, keys rec recorded
 Use(c, name, args, toks, rec, must, tags) ==
     LET before == defd[c]
-        mustbody == IF args.h = "" THEN {} ELSE {args.h}
+        \* once handles used by this step; the handle inside a guarded content is used iff that content is rendered
+        mustbody == (IF args.h = "" THEN {} ELSE {args.h})
+                    \cup (IF name = "OnceNested" /\ args.h \notin defd[c] THEN {args.t} ELSE {})
     IN
     /\ n < MaxSteps
     /\ n' = n + 1
@@ -204,6 +210,16 @@ Once(c, name, h) ==
     LET first == Key(h) \notin emitted[c] IN
     Use(c, name, [NoArgs EXCEPT !.h = h], IF first THEN <<Tok("body", h)>> ELSE <<>>, {Key(h)}, {}, {})
 
+\* once.go, re-entrancy: getHasBeenRendered / setHasBeenRendered(o) happen before the content renders, so a use of the
+\* same handle from inside its own content finds it rendered; another handle inside renders (and is recorded) as usual
+OnceNested(c, h, t) ==
+    LET first == Key(h) \notin emitted[c]
+        marked == IF Variant = "markAfterRender" THEN emitted[c] ELSE emitted[c] \cup {Key(h)}
+        innerFirst == first /\ Key(t) \notin marked
+    IN  Use(c, "OnceNested", [NoArgs EXCEPT !.h = h, !.t = t],
+            IF first THEN <<Tok("body", h)>> \o (IF innerFirst THEN <<Tok("body", t)>> ELSE <<>>) ELSE <<>>,
+            {Key(h)} \cup (IF first THEN {Key(t)} ELSE {}), {}, {})
+
 \* CSSHandler.ServeHTTP: the rules of the registered classes, in registration order; no context involved
 StylesheetRequest ==
     /\ \E c \in CtxSet : mode[c] = "mw"
@@ -235,6 +251,7 @@ Next == \/ \E c \in CtxSet :
             \/ \E cond \in BOOLEAN, a \in Classes, b \in Classes : ElementWithCondClass(c, cond, a, b)
             \/ \E h \in BlockHandles \cup ZeroHandles : Once(c, "OnceWithBlock", h)
             \/ \E h \in FixedHandles : Once(c, "OnceWithComponent", h)
+            \/ \E h \in BlockHandles \cup ZeroHandles, t \in BlockHandles \cup ZeroHandles : OnceNested(c, h, t)
             \/ SetNonce(c)
         \/ StylesheetRequest
 
